@@ -163,3 +163,21 @@ package sparseindex
 //@   ensures old(cbTrue) ==> cbTrue
 //@   ensures result2 == nil ==> ((res.canBeTrue || (cbTrue && !old(cbTrue))) ==> result0.canBeTrue)
 //@   ensures result2 == nil && result1 ==> result0.canBeTrue && result0.canBeFalse
+
+// ---------------------------------------------------------------- exclusion search (primary_index.go)
+
+// A range that may contain a match is split into pieces that tile it completely: every piece lies inside the
+// range, the loop pieces are contiguous from the right end, and the final piece reaches the range's start
+// (no fragment of a "may match" range is left unexamined).
+//@ func (*PKIndexReaderImpl).doExclusionSearch
+//@   requires r != nil && r.property != nil && r.property.CoarseIndexFragment < 4294967296
+//@   call checkInRange
+//@     frame nothing
+//@   call NewFragmentRange with mr.Start
+//@     requires mr.Start + 1 < mr.End ==> arg0 == mr.Start && arg1 == end && mr.Start < end && end <= mr.End
+//@   call NewFragmentRange
+//@     requires mr.Start + 1 < mr.End ==> mr.Start <= arg0 && arg0 < arg1 && arg1 <= mr.End && arg1 == end
+//@   loop 1
+//@     invariant r != nil && r.property != nil && r.property.CoarseIndexFragment > 1 && r.property.CoarseIndexFragment < 4294967296
+//@   loop 2
+//@     invariant mr.Start + 1 < mr.End ==> mr.Start < end && end <= mr.End && step >= 1
